@@ -24,6 +24,7 @@ var (
 func checkC09(c *chk.Ctx) {
 	h := newH(c)
 	c.Decided = []string{
+		"R09l TruncateLog decides what to cut from the appended end of the log: none of its branch conditions reads the synced offset (entries appended but not yet synced have to go too)",
 		"R09a an entry is appended to a segment only after the contiguity check of its offset (shared with C08)",
 		"R09b every WAL method that appends to / truncates a segment updates the last-offset bookkeeping on every path that can report success",
 		"R09c trimming is only driven by the trimmer and bounded by the commit offset",
@@ -49,6 +50,7 @@ func checkC09(c *chk.Ctx) {
 	ruleR09i(h)
 	ruleSegmentListSorted(h, "R09j")
 	ruleSyncCompletionsCovered(h, "R09k")
+	ruleR09l(h)
 }
 
 // mayBeNil: the (resolved) error operand of a return is not provably non-nil.
@@ -626,5 +628,49 @@ func ruleR09i(h *H) {
 	}
 	if n == 0 {
 		h.Anchor(rule, "methods of the ReadOnlySegmentsGroup implementation returning object.RefCount")
+	}
+}
+
+// ruleR09l: truncation removes everything after the safe offset, including entries that
+// were appended but are not synced yet. The synced offset (Wal.LastOffset(), the field
+// behind it) lags the appended one, so a decision of TruncateLog taken on it ("nothing to
+// truncate") leaves an unsynced tail in place: the next append at safe+1 is refused and the
+// tail reappears with the next sync.
+func ruleR09l(h *H) {
+	const rule = "R09l"
+	h.Rule(rule, "K4", "no branch condition of the Wal.TruncateLog implementation depends on the synced offset (the lastSyncedOffset field or Wal.LastOffset())", 1)
+	wt := h.implType(rule, "server/wal", "Wal")
+	if wt == nil {
+		return
+	}
+	tn := wt.Obj().Name()
+	n := 0
+	for _, root := range h.P.ImplMethods("server/wal", "Wal", "TruncateLog") {
+		for _, fn := range helperFuncs(root) {
+			fn := fn
+			h.Fn(ir.FuncName(fn))
+			isSynced := func(v ssa.Value) bool {
+				c, ok := v.(*ssa.Call)
+				if !ok {
+					return false
+				}
+				if _, isLoad := isAtomicCallOnField(c, "Load", "server/wal", tn, "lastSyncedOffset"); isLoad {
+					return true
+				}
+				return h.P.Matches(c.Common(), walLastOffset)
+			}
+			ir.Instrs(fn, func(in ssa.Instruction) {
+				iff, ok := in.(*ssa.If)
+				if !ok {
+					return
+				}
+				n++
+				dep := ir.DependsOn(iff.Cond, isSynced)
+				h.Verdict(!dep, rule, fmt.Sprintf("branch #%d of %s", n, ir.FuncName(root)), h.pos(in), "decided without the synced offset", "TruncateLog decides on the synced offset: an appended but unsynced tail survives the truncation (the next append at the safe offset + 1 is refused, and the tail reappears with the next sync)")
+			})
+		}
+	}
+	if n == 0 {
+		h.Anchor(rule, "branches of the Wal.TruncateLog implementation")
 	}
 }
